@@ -64,8 +64,10 @@ class Session:
         p = subprocess.run(["timeout", "600", "strace", "-f", "-y", "-xx", "-s", "8000000", "-o", self.trace, "-e", "trace=" + crashfs.SYSCALLS,
                             binary, "run", spath], capture_output=True, text=True, env=env, cwd=ctx.tmp)
         outs = [json.loads(l) for l in p.stdout.splitlines() if l.startswith('{"kind":"run"')]
+        ab = [l for l in p.stdout.splitlines() if l.startswith('{"kind":"abort"')]
+        # the code under test aborted (assertion, signal) inside a wallet call: a verdict on the property being checked, not an infrastructure error
+        self.abort = json.loads(ab[0]) if ab else None
         if not outs:
-            ab = [l for l in p.stdout.splitlines() if l.startswith('{"kind":"abort"')]
             self.out = dict(kind="run", load="process ended with status %s: %s" % (p.returncode, (ab[0] if ab else (p.stderr or p.stdout)[-400:]).replace("\n", " ")), steps=[])
             self.aborted = True
         else:
